@@ -290,3 +290,35 @@ PROPS["C17"] = dict(
     assumptions=["object-API forms are checked only for 'returns nothing but an error'"],
     trusted_base=TB_COMMON,
 )
+
+# ---------------------------------------------------------------------------------------------- C03
+
+
+def _c03_floors(m, tier):
+    kinds = ["replay", "skip", "swap", "foreign", "wrong_ad", "bit_flip"]
+    out = need(m, "wrong_delivery", ["%s|%s" % (k, p) for k in kinds for p in ("before_rekey", "after_rekey")], "wrong-delivery kind x rekey phase")
+    out += need(m, "counter_class", ["fresh", "midrange", "0xfffffffe", "0xffffffff"], "counter classes")
+    out += need(m, "auto_rekey", ["by_tag", "by_counter_wrap"], "automatic rekey causes")
+    out += need(m, "len_mod16", range(16), "message length residues mod 16")
+    out += need(m, "len_mod64", range(64), "message length residues mod 64")
+    out += need(m, "api", ["classic", "DryocStream"], "API")
+    out += need(m, "explicit_rekey", ["done"], "explicit rekey")
+    return out
+
+
+PROPS["C03"] = dict(
+    level="exploration",
+    technique="runtime history monitoring: seeded random operation histories drive dryoc push/pull and libsodium push/pull in lockstep (libsodium = executable sequential model); after every step ciphertexts, pulled messages/tags and the hooked internal (key, nonce) states are compared; wrong deliveries must be rejected without state change; Python ChaCha20-Poly1305 secretstream model replays sampled histories offline",
+    level_text="Histories of depth 24 over {push(len, adlen, tag), explicit rekey, deliver-in-order, deliver-wrong(replay|skip|swap|foreign|wrong-AD|bit-flip)} are generated from a seed, "
+               "each started from the four counter classes (1, mid-range, 0xfffffffe, 0xffffffff via the verif_hooks state constructor) and run through the classic functions or DryocStream; "
+               "24 000 histories quick, 800 000 thorough. The history space is unbounded, so this is exploration with a coverage floor on every wrong-delivery kind before and after a rekey.",
+    level_note="libsodium's public state struct (k, nonce) is compared with dryoc's hooked state after every operation; a wrong delivery that libsodium would accept is treated as a harness fault.",
+    runs=lambda tier: [dict(build="st", monitor="c03")],
+    offline=offline.check_c03,
+    models=["chacha20", "poly1305", "secretstream"],
+    floors=_c03_floors,
+    rule="a case is one history (seeded op sequence x counter class x API); distinct by history index; non-trivial: every history performs at least one push and one delivery attempt; "
+         "evaluations count individual oracle comparisons (ciphertext, state, message, tag, rejection, state-unchanged)",
+    assumptions=["2^32 pushes are out of reach: counter wrap is reached through the hook that sets the counter"],
+    trusted_base=TB_COMMON + ["hook: State::verif_from_parts / verif_parts, DryocStream::verif_from_state / verif_state (feature verif_hooks)"],
+)
